@@ -14,7 +14,7 @@
     Nothing else is assumed about [iso]: in particular the theorems cover the transitivity shortcut of the code
     (an item is compared only with the FIRST member of each class / with one stored template per class). *)
 From Coq Require Import List NArith ZArith Bool Arith Permutation.
-From SK Require Import lib.LGraph lib.C13_Partition model.C13_Model model.C13_Trace proof.C13_Proof proof.C13_More proof.C13_Iso proof.C13_Templates proof.C13_Clusters proof.C13_Before proof.C13_Trace.
+From SK Require Import lib.LGraph lib.C13_Partition model.C13_Model model.C13_Trace proof.C13_Proof proof.C13_More proof.C13_Iso proof.C13_Templates proof.C13_Clusters proof.C13_Before proof.C13_Trace proof.C13_TraceExact.
 Import ListNotations.
 
 (** 1. GraphCluster.fit / iterative_cluster: every item gets exactly one class (the list of classes has the length
@@ -462,3 +462,32 @@ Theorem C13_graph_isomorphism_options :
                                (project13 {| cc_names := cc_names c; cc_defs := cc_defs c; cc_edge := cc_edge cdef |} g2).
 Proof. exact iso_call_cases. Qed.
 Print Assumptions C13_graph_isomorphism_options.
+
+(** the EXACT sequence of isomorphism tests of iterative_cluster, as a function of the clusters it returns (the test itself does
+    not occur): for every returned cluster, in order, its first member i is tested against every LATER list position j -- in
+    list order -- that carries the same normalised attribute and belongs to no EARLIER cluster.  [spec_new todo visited new]:
+    [todo] the (position, item) entries still to come, [visited] the members of the clusters before, [new] the clusters;
+    [row] one representative's tests; [after i todo] the entry of position i and what follows it. *)
+Theorem C13_gc_trace_exact :
+  forall (iso : item -> item -> bool) (mode : attr_mode) (data : list item),
+  snd (gc_iterative_tr iso mode data) = spec_new mode (enum_from 0 data) [] (fst (fst (gc_iterative_tr iso mode data))).
+Proof. exact gc_trace_exact. Qed.
+Print Assumptions C13_gc_trace_exact.
+
+Theorem C13_gc_trace_exact_meaning :
+  forall (mode : attr_mode),
+  (forall todo visited, spec_new mode todo visited [] = []) /\
+  (forall todo visited i tl more,
+     spec_new mode todo visited ((i :: tl) :: more) =
+     match after i todo with
+     | Some (xi, rest) => row mode i xi rest visited ++ spec_new mode rest ((i :: tl) ++ visited) more
+     | None => []
+     end) /\
+  (forall i xi rest vis,
+     row mode i xi rest vis =
+     map (fun jx => (i, fst jx))
+         (filter (fun jx => zlist_eqb (gc_key mode xi) (gc_key mode (snd jx)) && negb (memb (fst jx) vis)) rest)) /\
+  (forall i, after i [] = None) /\
+  (forall i k x r, after i ((k, x) :: r) = if Nat.eqb k i then Some (x, r) else after i r).
+Proof. exact (fun mode => conj (fun _ _ => eq_refl) (conj (fun _ _ _ _ _ => eq_refl) (conj (fun _ _ _ _ => eq_refl) (conj (fun _ => eq_refl) (fun _ _ _ _ => eq_refl))))). Qed.
+Print Assumptions C13_gc_trace_exact_meaning.
